@@ -16,6 +16,7 @@ from pandas.core.dtypes.inference import is_dict_like, is_list_like
 
 from staircase.constants import inf
 from staircase.core.arrays import docstrings
+from staircase.core.ops.common import _assert_closeds_equal
 from staircase.core.stairs import Stairs
 from staircase.core.stats.statistic import corr as _corr
 from staircase.core.stats.statistic import cov as _cov
@@ -163,6 +164,10 @@ class StairsArray(ExtensionArray):
 
     @Appender(docstrings.make_docstring("array", "agg"), join="\n", indents=1)
     def agg(self, func):
+        with_steps = [sf for sf in self.data if sf.number_of_steps]
+        for sf in with_steps[1:]:
+            _assert_closeds_equal(with_steps[0], sf)
+        closed = with_steps[0].closed if with_steps else self.data[0].closed
         index = pd.Index(
             np.unique(
                 np.concatenate(
@@ -184,7 +189,7 @@ class StairsArray(ExtensionArray):
                 index=index,
                 name="value",
             ).to_frame(),
-            closed=self.data[0].closed,
+            closed=closed,
         )._remove_redundant_step_points()
 
     @Appender(docstrings.make_docstring("array", "sample"), join="\n", indents=1)
